@@ -203,6 +203,22 @@ func ProtectOuter(m *abs.Msg, first uint8, inner []byte, s Suite, k DirKeys, iv,
 	return w.b, nil
 }
 
+// AssembleProtected builds header | SK{IV | ct | ICV} around a ciphertext the caller made itself (e.g. one whose
+// padding blocks were chosen so that IV|ct has a wanted checksum).
+func AssembleProtected(m *abs.Msg, first uint8, iv, ct []byte, s Suite, ka []byte) []byte {
+	skLen := 4 + 16 + len(ct) + s.ICVLen()
+	w := &wbuf{}
+	w.raw(EncodeHeader(m, abs.PSK, 28+skLen))
+	w.u8(first)
+	w.u8(0)
+	w.u16(uint16(skLen))
+	w.raw(iv)
+	w.raw(ct)
+	mac := HMAC(s.Integ, ka, w.b)
+	w.raw(mac[:s.ICVLen()])
+	return w.b
+}
+
 // Unprotect verifies, decrypts and strictly parses a protected message the
 // way an independent peer holding the sender-direction keys would.  It
 // returns the message, the pad octets and the IV.
